@@ -64,7 +64,7 @@ func vfC31AllFields(pfx string, got, want *Config) {
 //
 //vf:unwind 80
 //vf:bound inputs each Config field in turn (45 today) symbolic in both sources: strings empty or 1 symbolic byte, ints/durations all 64-bit values, maps nil/empty/1-2 entries with a shared key, lists of 0-2 elements
-//vf:outside the five *Raw helper strings (parsed elsewhere, not merged); two different fields non-default at once (cross-field interference is visible as a non-zero result in another field)
+//vf:outside the five *Raw helper strings (parsed elsewhere, not merged); two different fields symbolic at once (VfC31_Over: one symbolic field against a fully populated source)
 func VfC31_Fields() {
 	k := vfChoice("field", vfC31NFields)
 	a, b := &Config{}, &Config{}
@@ -88,6 +88,32 @@ func VfC31_Fields() {
 // evaluated on private copies so that a side effect of one grouping cannot hide
 // in the other.
 //
+// VfC31_Over: two different settings at once. One source carries a fixed
+// non-default value in EVERY field, the other sets one field (each in turn,
+// symbolic); in both orders the merged value follows the per-field rule - in
+// particular a later source that sets one setting leaves the earlier source's
+// other settings (also those of the same nested block) alone.
+//
+//vf:unwind 80
+//vf:bound inputs one source fully populated with fixed values, the other with one field (each of the 45 in turn) symbolic; both orders
+func VfC31_Over() {
+	k := vfChoice("field", vfC31NFields)
+	full, one := &Config{}, &Config{}
+	vfC31Fill(full)
+	vfC31Set(one, k, "one")
+	a, b := full, one
+	if vfBool("fullIsLater") {
+		a, b = one, full
+	}
+	a0, b0 := vfC31Copy(a), vfC31Copy(b)
+	want := vfC31Expect(a0, b0)
+	r := MergeConfig(a, b)
+	vfReach("C31.over.done")
+	vfC31AllFields("C31.over", r, want)
+	vfAssert("C31.over.immutable.first", vfC31Equal(a, a0))
+	vfAssert("C31.over.immutable.second", vfC31Equal(b, b0))
+}
+
 //vf:unwind 80
 //vf:paths quick=400000 thorough=4000000
 //vf:bound inputs each field in turn symbolic in three sources
